@@ -1,1 +1,297 @@
-// range algebra kernels (C05, C10)
+// Kani harnesses mounted inside `crate::token::variance`.
+// C05 (kernel level): the range algebra every build and query funnels through does not panic.
+// C10 (lemma): the algebra is sound for the interval reading of Invariant/Lower/Upper/Both/Unbounded.
+use super::*;
+
+use crate::token::variance::invariant::Size;
+
+const SMALL: usize = 1 << 31; // below this, sums and the products used here cannot overflow
+const WIDE: usize = 1 << 62; // sums of two operands below this cannot overflow
+
+fn any_nz(limit: usize) -> NonZeroUsize {
+    let n: usize = kani::any();
+    kani::assume(n != 0 && n < limit);
+    NonZeroUsize::new(n).unwrap()
+}
+
+// every value satisfying the representation invariant (Both: lower >= 1, extent >= 1, upper
+// representable), with magnitudes below `limit`
+fn any_bvr(limit: usize) -> BoundedVariantRange {
+    let kind: u8 = kani::any();
+    kani::assume(kind < 3);
+    match kind {
+        0 => BoundedVariantRange::Lower(any_nz(limit)),
+        1 => BoundedVariantRange::Upper(any_nz(limit)),
+        _ => {
+            let lower = any_nz(limit);
+            let extent = any_nz(limit);
+            kani::assume(lower.get().checked_add(extent.get()).is_some());
+            BoundedVariantRange::Both { lower, extent }
+        },
+    }
+}
+
+fn any_tv<T>(limit: usize) -> TokenVariance<T>
+where
+    T: From<usize> + Invariant<Bound = BoundedVariantRange>,
+{
+    let kind: u8 = kani::any();
+    kani::assume(kind < 3);
+    match kind {
+        0 => {
+            let n: usize = kani::any();
+            kani::assume(n < limit);
+            Variance::Invariant(T::from(n))
+        },
+        1 => Variance::Variant(Unbounded),
+        _ => Variance::Variant(Bounded(any_bvr(limit))),
+    }
+}
+
+fn bvr_lo_hi(range: &BoundedVariantRange) -> (usize, Option<usize>) {
+    match range {
+        BoundedVariantRange::Lower(lower) => (lower.get(), None),
+        BoundedVariantRange::Upper(upper) => (0, Some(upper.get())),
+        BoundedVariantRange::Both { lower, extent } => {
+            (lower.get(), Some(lower.get() + extent.get()))
+        },
+    }
+}
+
+fn vr_lo_hi(range: &VariantRange) -> (usize, Option<usize>) {
+    match range {
+        Unbounded => (0, None),
+        Bounded(range) => bvr_lo_hi(range),
+    }
+}
+
+fn tv_lo_hi<T>(variance: &TokenVariance<T>) -> (usize, Option<usize>)
+where
+    T: Copy + Into<usize> + Invariant<Bound = BoundedVariantRange>,
+{
+    match variance {
+        Variance::Invariant(n) => ((*n).into(), Some((*n).into())),
+        Variance::Variant(range) => vr_lo_hi(range),
+    }
+}
+
+fn within(bounds: (usize, Option<usize>), x: usize) -> bool {
+    x >= bounds.0 && bounds.1.map_or(true, |hi| x <= hi)
+}
+
+// the representation invariant of a result
+fn well_formed(range: &BoundedVariantRange) -> bool {
+    match range {
+        BoundedVariantRange::Both { lower, extent } => {
+            lower.get().checked_add(extent.get()).is_some()
+        },
+        _ => true,
+    }
+}
+
+// ---------------------------------------------------------------------------------------------
+// C05: totality below 2^31 -- no panic of any kind is tolerated
+// ---------------------------------------------------------------------------------------------
+
+#[kani::proof]
+fn total_conjunction_bounded_ranges() {
+    let a = any_bvr(SMALL);
+    let b = any_bvr(SMALL);
+    let c = ops::conjunction(a, b);
+    assert!(well_formed(&c));
+    kani::cover!(matches!(a, BoundedVariantRange::Upper(_)) && matches!(b, BoundedVariantRange::Lower(_)));
+}
+
+#[kani::proof]
+fn total_conjunction_depth_variance() {
+    let a = any_tv::<Depth>(SMALL);
+    let b = any_tv::<Depth>(SMALL);
+    let _ = ops::conjunction(a, b);
+    kani::cover!(a.is_unbounded() && !b.is_unbounded());
+}
+
+#[kani::proof]
+fn total_conjunction_size_variance() {
+    let a = any_tv::<Size>(SMALL);
+    let b = any_tv::<Size>(SMALL);
+    let _ = ops::conjunction(a, b);
+    kani::cover!(a.is_invariant() && b.is_variant());
+}
+
+// unions, bound conversions: full width
+#[kani::proof]
+fn total_disjunction_depth_variance() {
+    let a = any_tv::<Depth>(usize::MAX);
+    let b = any_tv::<Depth>(usize::MAX);
+    let _ = ops::disjunction(a, b);
+    kani::cover!(a.is_invariant() && b.is_invariant());
+}
+
+#[kani::proof]
+fn total_union_and_openings() {
+    let a = any_bvr(usize::MAX);
+    let b = any_bvr(usize::MAX);
+    let _: VariantRange = ops::disjunction(a, b);
+    let _ = a.opened_lower_bound();
+    let _ = a.opened_upper_bound();
+    let _ = a.lower().into_usize();
+    let _ = a.upper().into_usize();
+    kani::cover!(matches!(a, BoundedVariantRange::Both { .. }));
+}
+
+#[kani::proof]
+fn total_from_closed_and_open() {
+    let closed: usize = kani::any();
+    let open: Option<usize> = kani::any();
+    let range = NaturalRange::from_closed_and_open(closed, open);
+    let lower = range.lower().into_usize();
+    let upper = range.upper().into_usize();
+    // the documented reading: bounds are reordered, zero/None are open
+    let (lo, hi) = match open {
+        Some(open) if closed > open => (open, Some(closed)),
+        _ => (closed, open),
+    };
+    assert!(lower == lo);
+    assert!(upper == hi || (hi == Some(0) && upper == Some(0)) || (lo == 0 && hi == Some(0)));
+    kani::cover!(matches!(range, Variance::Invariant(_)));
+}
+
+#[kani::proof]
+fn total_translation() {
+    let a = any_bvr(SMALL);
+    let vector: usize = kani::any();
+    kani::assume(vector < SMALL);
+    let c = a.translation(vector);
+    assert!(well_formed(&c));
+    kani::cover!(vector > 0);
+}
+
+// ---------------------------------------------------------------------------------------------
+// C05: full width -- the checked_add().expect("overflow ...") of a sum is reachable (known finding)
+// ---------------------------------------------------------------------------------------------
+
+#[kani::proof]
+fn full_width_conjunction_lower_bounds() {
+    let a = BoundedVariantRange::Lower(any_nz(usize::MAX));
+    let b = BoundedVariantRange::Lower(any_nz(usize::MAX));
+    let _ = ops::conjunction(a, b);
+}
+
+// ---------------------------------------------------------------------------------------------
+// C10 lemma: soundness of the algebra (operands below 2^62 so that the sums exist)
+// ---------------------------------------------------------------------------------------------
+
+#[kani::proof]
+fn sound_conjunction_bounded_ranges() {
+    let a = any_bvr(WIDE);
+    let b = any_bvr(WIDE);
+    let x: usize = kani::any();
+    let y: usize = kani::any();
+    kani::assume(x < WIDE && y < WIDE);
+    kani::assume(within(bvr_lo_hi(&a), x) && within(bvr_lo_hi(&b), y));
+    let c = ops::conjunction(a, b);
+    assert!(within(bvr_lo_hi(&c), x + y));
+    kani::cover!(matches!(a, BoundedVariantRange::Upper(_)) && matches!(b, BoundedVariantRange::Lower(_)));
+    kani::cover!(matches!(a, BoundedVariantRange::Both { .. }) && matches!(b, BoundedVariantRange::Both { .. }));
+}
+
+#[kani::proof]
+fn sound_conjunction_depth_variance() {
+    let a = any_tv::<Depth>(WIDE);
+    let b = any_tv::<Depth>(WIDE);
+    let x: usize = kani::any();
+    let y: usize = kani::any();
+    kani::assume(x < WIDE && y < WIDE);
+    kani::assume(within(tv_lo_hi(&a), x) && within(tv_lo_hi(&b), y));
+    let c = ops::conjunction(a, b);
+    assert!(within(tv_lo_hi(&c), x + y));
+    kani::cover!(a.is_unbounded() && b.is_invariant());
+    kani::cover!(a.is_invariant() && b.is_invariant());
+}
+
+#[kani::proof]
+fn sound_disjunction_depth_variance() {
+    let a = any_tv::<Depth>(WIDE);
+    let b = any_tv::<Depth>(WIDE);
+    let x: usize = kani::any();
+    kani::assume(within(tv_lo_hi(&a), x) || within(tv_lo_hi(&b), x));
+    let c = ops::disjunction(a, b);
+    assert!(within(tv_lo_hi(&c), x));
+    kani::cover!(a.is_invariant() && b.is_invariant() && a != b);
+    kani::cover!(a.is_invariant() && b.is_variant());
+}
+
+#[kani::proof]
+fn sound_opened_upper_bound() {
+    let a = any_bvr(WIDE);
+    let x: usize = kani::any();
+    kani::assume(x >= bvr_lo_hi(&a).0);
+    let c = a.opened_upper_bound();
+    assert!(within(vr_lo_hi(&c), x));
+    kani::cover!(matches!(a, BoundedVariantRange::Both { .. }));
+}
+
+// products: the repetition range comes from a constant table (a symbolic x symbolic 64-bit product
+// does not finish in CBMC); the body variance is symbolic below 2^40
+fn const_range<const KIND: u8, const A: usize, const B: usize>() -> NaturalRange {
+    match KIND {
+        0 => Variance::Invariant(A),
+        1 => Variance::Variant(Unbounded),
+        2 => Variance::Variant(Bounded(BoundedVariantRange::Lower(NonZeroUsize::new(A).unwrap()))),
+        3 => Variance::Variant(Bounded(BoundedVariantRange::Upper(NonZeroUsize::new(A).unwrap()))),
+        _ => Variance::Variant(Bounded(BoundedVariantRange::Both {
+            lower: NonZeroUsize::new(A).unwrap(),
+            extent: NonZeroUsize::new(B).unwrap(),
+        })),
+    }
+}
+
+fn range_lo_hi(range: &NaturalRange) -> (usize, Option<usize>) {
+    match range {
+        Variance::Invariant(n) => (*n, Some(*n)),
+        Variance::Variant(range) => vr_lo_hi(range),
+    }
+}
+
+// body matched K times (K in the repetition range), each time with a depth inside `a`: the total
+// t with K*lo(a) <= t <= K*hi(a) lies inside the product
+fn product_case<const KIND: u8, const A: usize, const B: usize, const K: usize>() {
+    let a = any_tv::<Depth>(1 << 40);
+    let r = const_range::<KIND, A, B>();
+    assert!(within(range_lo_hi(&r), K));
+    let t: usize = kani::any();
+    let (lo, hi) = tv_lo_hi(&a);
+    kani::assume(K * lo <= t);
+    match hi {
+        Some(hi) => kani::assume(t <= K * hi),
+        None => kani::assume(K > 0 || t == 0),
+    }
+    let p = ops::product(a, r);
+    assert!(within(tv_lo_hi(&p), t));
+    kani::cover!(a.is_variant());
+    kani::cover!(a.is_invariant());
+}
+
+macro_rules! product_harness {
+    ($name:ident, $kind:expr, $a:expr, $b:expr, $k:expr) => {
+        #[kani::proof]
+        fn $name() {
+            product_case::<$kind, $a, $b, $k>();
+        }
+    };
+}
+
+product_harness!(sound_product_exactly_0, 0, 0, 0, 0);
+product_harness!(sound_product_exactly_1, 0, 1, 0, 1);
+product_harness!(sound_product_exactly_3, 0, 3, 0, 3);
+product_harness!(sound_product_unbounded_k0, 1, 0, 0, 0);
+product_harness!(sound_product_unbounded_k7, 1, 0, 0, 7);
+product_harness!(sound_product_lower2_k2, 2, 2, 0, 2);
+product_harness!(sound_product_lower2_k7, 2, 2, 0, 7);
+product_harness!(sound_product_upper3_k0, 3, 3, 0, 0);
+product_harness!(sound_product_upper3_k3, 3, 3, 0, 3);
+product_harness!(sound_product_upper1_k1, 3, 1, 0, 1);
+product_harness!(sound_product_both_1_3_k1, 4, 1, 2, 1);
+product_harness!(sound_product_both_2_5_k4, 4, 2, 3, 4);
+product_harness!(sound_product_both_2_5_k5, 4, 2, 3, 5);
+product_harness!(sound_product_both_1_2_k2, 4, 1, 1, 2);
